@@ -11,6 +11,20 @@ from .C01 import replay_case
 PID = "C08"
 
 
+def _custom_plan(**kw):
+    """A user scheduler whose segment lengths repeat non-monotonically (64, 128, 64, 32, 128, 32): per-length caches are revisited."""
+    N, fs = int(kw["N"]), float(kw["fs"])
+    Ls = [64, 128, 64, 32, 128, 32]
+    f = np.array([0.05, 0.11, 0.17, 0.23, 0.31, 0.41]) * fs
+    D = []
+    for L in Ls:
+        K = max(2, int(round((N - L) / (0.5 * L) + 1)))
+        D.append(np.round(np.arange(K) * (N - L) / (K - 1)).astype(np.int64))
+    K = np.array([len(d) for d in D], dtype=np.int64)
+    L = np.array(Ls, dtype=np.int64)
+    return {"f": f, "r": fs / L, "b": f * L / fs, "m": f * L / fs, "L": L, "K": K, "navg": K.copy(), "D": D, "O": np.full(len(Ls), 0.5), "nf": len(Ls)}
+
+
 def record_detrend(spec):
     """One record, every order in one process, trends of every degree in x / y / both."""
     import speckit
@@ -22,7 +36,7 @@ def record_detrend(spec):
     t = np.arange(N) / N
     amp = 1000.0 * u
     ev = []
-    kw = dict(scheduler=spec["sched"], backend=spec["backend"], Jdes=spec["Jdes"], Kdes=spec["Kdes"], Lmin=spec["Lmin"], olap=spec["olap"])
+    kw = dict(scheduler=(_custom_plan if spec["sched"] == "custom" else spec["sched"]), backend=spec["backend"], Jdes=spec["Jdes"], Kdes=spec["Kdes"], Lmin=spec["Lmin"], olap=spec["olap"])
     if spec["win"] == "kaiser":
         kw.update(win="kaiser", psll=spec["psll"])
     else:
@@ -48,7 +62,7 @@ def record_detrend(spec):
                     ch_m2 = np.abs(np.sqrt(r.M2) - np.sqrt(base.M2)) / a2
                     allc = np.maximum.reduce([ch_xx, ch_yy, ch_xy, ch_m2])
                     ev.append({"p": int(p), "d": int(d), "ch": ch, "mode": mode, "all": traces.q(float(allc.max()), 2 ** 30),
-                               "low": traces.q(float(allc[:3].max()), 2 ** 30), "nf": int(r.nf), "minL": int(np.min(r.L))})
+                               "low": traces.q(float(allc[:3].max()), 2 ** 30), "nf": int(r.nf), "minL": int(np.min(r.L)) if spec["sched"] != "custom" else -1})
     return {"meta": dict(spec), "c": {}, "ev": ev}
 
 
@@ -84,6 +98,9 @@ def run(tier):
                           win=["kaiser", "hann"][k % 2], psll=rnd.choice([100, 200]), Jdes=rnd.choice([20, 40]), Kdes=rnd.choice([4, 10]),
                           Lmin=1 if sch == "lpsd" else rnd.choice([1, 16]), olap=0.5, orders=[1, 2, 0, -1] if k % 2 == 0 else [2, 1, -1, 0],
                           modes=["csd"] if k % 3 else ["auto", "csd"], unit=2.0 ** -80 if (k % 4) in (1, 2) else 1.0))
+    for b in ("numba", "numpy"):           # a user-supplied plan with repeated, non-monotone segment lengths
+        specs.append(dict(seed=rnd.randrange(2 ** 31), N=2000, sched="custom", backend=b, win="hann", psll=100, Jdes=20, Kdes=4, Lmin=1, olap=0.5,
+                          orders=[2, 1, 0, -1], modes=["csd", "auto"], unit=1.0))
     trs = common.pmap(record_detrend, specs, chunksize=1)
     vd, tres = traces.validate("DetrendTrace", f"{PID}_trace", trs)
     V.model(tres, "DetrendTrace.tla (metamorphic runs through the analyzer)")
